@@ -981,9 +981,24 @@ def no_mutual_deferral(ctx, p):
                         if pl[0] in elem and any(isinstance(e, str) and e in ('.CommitChangeSet.check_for_deferral', '.IndexedChangeSet.node_changes') for e in pl[1:]):
                             looks = True
     ctx.ob(p + 'a queue-scan-anchor', 'anchor', pc.path, 'the deferral decision scans the queued commits', found, '')
+    # alternative that makes the cycle impossible: what waits on the queue after a deferral is a changeset built for the purpose that
+    # holds the removals only - it carries no used_trees marks, so a waiting commit never makes another one wait
+    requeued = []
+    for x in pc.call_sites('db::DbInner::defer_commit'):
+        requeued += [(x, a) for a in pc.term(x)['a'][1:] if op_place(a) is not None and 'CommitChangeSet' in str(pc.locals[op_place(a)[0]])]
+    for x in lib.field_effect_sites(pc, ['re:VecDeque.*::push_back$'], '.CommitQueue.commits'):
+        t = pc.term(x)
+        if call_matches(t, ['re:VecDeque.*::push_back$']) and len(t['a']) > 1 and op_place(t['a'][1]) is not None:
+            requeued.append((x, t['a'][1]))
+    fresh = bool(requeued)
+    for x, a in requeued:
+        sl = backward_slice(pc, [op_place(a)])
+        whole = '.Commit.changeset' in sl.fields and not any(F.body(c) is not None for c in sl.calls)
+        if whole or '.IndexedChangeSet.used_trees' in sl.fields:
+            fresh = False
     ctx.ob(p + 'b queue-scan-ignores-commits-waiting-on-the-same-tree', 'K3-guard', pc.path,
-           'while scanning the queue for users of a tree, the log worker looks at whether the scanned commit is itself a (deferrable) dereference of that tree; two commits that each dereference the tree and each mark it as used would otherwise defer each other forever',
-           looks, 'the scan reads only used_trees of the queued commits')
+           'while scanning the queue for users of a tree, the log worker looks at whether the scanned commit is itself a (deferrable) dereference of that tree - or a commit that waits carries no used_trees marks at all (it is re-queued as a fresh changeset holding the removals only); two commits that each dereference the tree and each mark it as used would otherwise defer each other forever',
+           looks or fresh, 'the scan reads only used_trees of the queued commits, and a deferred commit goes back onto the queue with its used_trees')
 
 
 def lookup_sees_one_queue_state(ctx, p):
